@@ -4,27 +4,29 @@ open Extracted
 open Driver_base
 open Drv_ssa
 
+(* an optional noise parameter index: "-" or the index *)
+let pop_noise r = let (t, r) = pop r in ((if t = "-" then None else Some (nat_of_int (int_of_string t))), r)
 let pop_vrule r =
   let (k, r) = pop r in
   match k with
-  | "lin" -> let (g, r) = pop_nat r in (VRLinear g, r)
-  | "mult" -> let (g, r) = pop_nat r in (VRMult g, r)
+  | "lin" -> let (g, r) = pop_nat r in let (n, r) = pop_noise r in (VRLinear (g, n), r)
+  | "mult" -> let (g, r) = pop_nat r in let (n, r) = pop_noise r in (VRMult (g, n), r)
   | "asg" -> let (t, r) = pop_term r in (VRAssign t, r)
   | "ode" -> let (t, r) = pop_term r in (VROde t, r)
   | _ -> raise (Parse ("volume rule " ^ k))
 let pop_drule r =
   let (k, r) = pop r in
   match k with
-  | "time" -> let (g, r) = pop_nat r in (DRTime g, r)
-  | "vol" -> let (g, r) = pop_nat r in (DRVolume g, r)
-  | "dv" -> let (g, r) = pop_nat r in (DRDeltaV g, r)
+  | "time" -> let (g, r) = pop_nat r in let (n, r) = pop_noise r in (DRTime (g, n), r)
+  | "vol" -> let (g, r) = pop_nat r in let (n, r) = pop_noise r in (DRVolume (g, n), r)
+  | "dv" -> let (g, r) = pop_nat r in let (n, r) = pop_noise r in (DRDeltaV (g, n), r)
   | "gen" -> let (t, r) = pop_term r in (DRGeneral t, r)
   | _ -> raise (Parse ("division rule " ^ k))
 let pop_krule r =
   let (k, r) = pop r in
   match k with
-  | "sp" -> let (a, r) = pop_nat r in let (b, r) = pop_nat r in let (c, r) = pop_int r in (KRSpecies (a, b, z_of_int c), r)
-  | "par" -> let (a, r) = pop_nat r in let (b, r) = pop_nat r in let (c, r) = pop_int r in (KRParam (a, b, z_of_int c), r)
+  | "sp" -> let (a, r) = pop_nat r in let (b, r) = pop_nat r in let (c, r) = pop_int r in let (n, r) = pop_noise r in (KRSpecies (a, b, z_of_int c, n), r)
+  | "par" -> let (a, r) = pop_nat r in let (b, r) = pop_nat r in let (c, r) = pop_int r in let (n, r) = pop_noise r in (KRParam (a, b, z_of_int c, n), r)
   | "gen" -> let (t, r) = pop_term r in (KRGeneral t, r)
   | _ -> raise (Parse ("death rule " ^ k))
 let pop_vevent r =
@@ -46,7 +48,7 @@ let cmd_lsim toks =
   let l = { ln_sim = s; ln_vrules = vr; ln_drules = dr; ln_krules = kr; ln_vevents = ve; ln_devents = de; ln_kevents = ke } in
   let buf = Buffer.create 1024 in
   let out x = Buffer.add_string buf x; Buffer.add_char buf ' ' in
-  (match lssa_simulate fl 1E-9 10e-8 fuel l ts t_cur t_init v v_init s.sm_x0 u O with
+  (match lssa_simulate fl pi2 1E-9 10e-8 fuel l ts t_cur t_init v v_init s.sm_x0 u O with
    | Done st -> show_rows buf st.ls_rows; out "POS"; out (string_of_int (int_of_nat st.ls_pos));
      out "V"; List.iter (fun x -> out (hx x)) st.ls_vols;
      out "DIV"; out (string_of_int (int_of_z st.ls_divided)); out "DEAD"; out (string_of_int (int_of_z st.ls_dead));
@@ -73,7 +75,7 @@ let cmd_lineage toks =
   let l = { ln_sim = s; ln_vrules = vr; ln_drules = dr; ln_krules = kr; ln_vevents = ve; ln_devents = de; ln_kevents = ke } in
   let buf = Buffer.create 4096 in
   let out x = Buffer.add_string buf x; Buffer.add_char buf ' ' in
-  (match simulate_lineage fl 1E-9 10e-8 1E-12 (nat_of_int 100000) fuel l sps ts cells u O with
+  (match simulate_lineage fl pi2 1E-9 10e-8 1E-12 (nat_of_int 100000) fuel l sps ts cells u O with
    | Done w ->
      List.iter (fun z ->
        out "S"; out (match z.sz_parent with None -> "-1" | Some p -> string_of_int (int_of_nat p));
